@@ -297,7 +297,7 @@ func langCheck(prop, tier string) int {
 			}
 			run.Set("schedule_part", map[string]any{"inputs": sp.Inputs, "schedules_explored": sp.Execs, "scheduler_states": sp.States, "max_schedules_per_input": sp.MaxSched,
 				"inputs_leaving_the_lexer_goroutine_blocked_after_the_parse_returned": sp.Leaky,
-				"what": "every string of <=3 (thorough 4) alphabet symbols and a few structured inputs parsed under EVERY interleaving of lexer goroutine and parser (controlled scheduler over the mechanically rewritten lexer): no deadlock, livelock or panic, and one result per input over all schedules"})
+				"what": "every string of <=3 (thorough 4) alphabet symbols and every single edit of three programs (task bodies, a # inside a body, later errors) parsed under EVERY interleaving of lexer goroutine and parser (controlled scheduler over the mechanically rewritten lexer): no deadlock, livelock or panic, and one result per input over all schedules"})
 			total.Inputs += sp.Inputs
 			total.Tokens += sp.Execs
 		}
